@@ -1,12 +1,164 @@
-import RpycModel.Proto.Handlers
+import RpycModel.Proto.HandlersLemmas
 /-
 C07 — a hostile peer cannot step outside what the service exposes.
-(property theorems only; helper lemmas are in RpycModel/Proto/HandlersLemmas.lean)
+
+Only the property theorems and their non-vacuity examples live here (namespace Rpyc.Props.C07); the helper lemmas
+are in RpycModel/Proto/HandlersLemmas.lean.
+
+Every theorem quantifies over
+  * `b : Ctx` — the connection's configuration, the service root, and the ENVIRONMENT: what every primitive operation
+    on a Python object answers (any value, any exception, any number of callbacks into the peer, stateful), plus
+    `str()` of plain values and the bounds `maxCb`, `depth`;
+  * `bursts : List (List Wire)` — any finite sequence of well-framed messages (each an ARBITRARY decoded value, an
+    undecodable payload, or an empty frame), grouped in any way into bursts (what is in the inbox at once);
+  * `fuel : Nat`.
+`run b fuel {} bursts` is the state of a fresh connection after serving them (`serve_all`, nested dispatch while
+a handler waits for the peer included).
 -/
 namespace Rpyc.Props.C07
 open Rpyc Rpyc.Handlers
 
-/-- **closed world**: the handler table of the source is exactly the one the model dispatches on -/
+/-- the state of a fresh connection after any message sequence satisfies the invariants -/
+theorem reachable_inv (b : Ctx) (fuel : Nat) (bursts : List (List Wire)) :
+    Inv b.cfg b.root (run b fuel {} bursts) :=
+  (run_ok b fuel bursts {} (Inv.init _ _)).1
+
+/-- **(1) touch_policy**, any configuration: every `getattr/setattr/delattr` the protocol performs through the
+default accessor has its operation kind enabled and a name the configuration allows (`_check_attr` let it through),
+and every `hasattr` probe of `_check_attr` is on an allowed name.  This covers the operator name of `HANDLE_CMP`
+(the CVE-2019-16328 shape), `__exit__` in `HANDLE_CTXEXIT`, both names of `HANDLE_OLDSLICING`, `HANDLE_CALLATTR`. -/
+theorem touch_policy (b : Ctx) (fuel : Nat) (bursts : List (List Wire)) (t : Touch)
+    (ht : Ev.touch t ∈ (run b fuel {} bursts).log) :
+    (∀ op, t.kind = .attr op → b.cfg.perm op = true ∧ plainAllowed b.cfg t.name = true) ∧
+    (t.kind = .probe → plainAllowed b.cfg t.name = true) := by
+  have hg := (reachable_inv b fuel bursts).good
+  have := List.all_eq_true.mp hg _ ht
+  simp only [Ev.good, Touch.good] at this
+  constructor
+  · intro op hk
+    rw [hk] at this
+    simpa using this
+  · intro hk
+    rw [hk] at this
+    exact this
+
+/-- (1) under the generated default configuration, in the statement's words: only reads, and only of names that
+carry the exposed prefix or are on the safe list -/
+theorem touch_policy_default (b : Ctx) (hcfg : b.cfg = defaultConfig) (fuel : Nat) (bursts : List (List Wire))
+    (t : Touch) (ht : Ev.touch t ∈ (run b fuel {} bursts).log) (op : Op) (hk : t.kind = .attr op) :
+    op = .get ∧ (Gen.Handlers.cfgExposedPrefix.isPrefixOf t.name = true ∨ Gen.Handlers.cfgSafe.contains t.name = true) := by
+  obtain ⟨hp, hn⟩ := (touch_policy b fuel bursts t ht).1 op hk
+  rw [hcfg] at hp hn
+  constructor
+  · cases op with
+    | get => rfl
+    | set => exact absurd hp (by decide)
+    | del => exact absurd hp (by decide)
+  · have e1 : defaultConfig.allowAll = false := by decide
+    have e2 : defaultConfig.allowPublic = false := by decide
+    have e3 : defaultConfig.exposedPrefix = Gen.Handlers.cfgExposedPrefix := rfl
+    have e4 : defaultConfig.safe = Gen.Handlers.cfgSafe := rfl
+    simp only [plainAllowed, e1, e2, e3, e4, Bool.false_or, Bool.false_and, Bool.or_false, Bool.or_eq_true,
+      Bool.and_eq_true] at hn
+    rcases hn with h | h
+    · exact Or.inl h.2
+    · exact Or.inr h.2
+
+/-- **(3) no_pickle**: no `pickle.dumps` unless `allow_pickle` -/
+theorem no_pickle (b : Ctx) (hcfg : b.cfg.allowPickle = false) (fuel : Nat) (bursts : List (List Wire)) (t : Touch)
+    (ht : Ev.touch t ∈ (run b fuel {} bursts).log) : t.kind ≠ .pickle := by
+  intro hk
+  have := List.all_eq_true.mp (reachable_inv b fuel bursts).good _ ht
+  simp [Ev.good, Touch.good, hk, hcfg] at this
+
+/-- **(4) no_import**: no `__import__` unless `import_custom_exceptions`; no lookup in `sys.modules` (of the module
+or of a class in it) unless one of the two exception switches is on — whatever exception payload arrives -/
+theorem no_import (b : Ctx) (hi : b.cfg.importCustomExc = false) (fuel : Nat) (bursts : List (List Wire)) (t : Touch)
+    (ht : Ev.touch t ∈ (run b fuel {} bursts).log) :
+    t.kind ≠ .import_ ∧ (b.cfg.instantiateCustomExc = false → t.kind ≠ .modPresent ∧ t.kind ≠ .modattr) := by
+  have := List.all_eq_true.mp (reachable_inv b fuel bursts).good _ ht
+  refine ⟨?_, fun hj => ⟨?_, ?_⟩⟩ <;> intro hk <;> simp [Ev.good, Touch.good, hk, hi, *] at this
+
+/-- (3)+(4) for the generated default configuration -/
+theorem default_gates_closed :
+    defaultConfig.allowPickle = false ∧ defaultConfig.importCustomExc = false ∧ defaultConfig.instantiateCustomExc = false := by
+  decide
+
+/-- **(2) touch_caps**: at every point of every history, every object that is an operand of a primitive operation
+(subject or argument, at any tuple depth) is the service root or was handed to the protocol code by the environment
+earlier in this connection's log (the result of an earlier permitted operation, or an argument the service itself
+chose to send) — the protocol never conjures a reference. -/
+theorem touch_caps (b : Ctx) (fuel : Nat) (bursts : List (List Wire)) (pre post : List Ev) (t : Touch)
+    (h : (run b fuel {} bursts).log = pre ++ .touch t :: post) : ∀ o ∈ t.needs, o ∈ known b.root pre := by
+  have hj := (reachable_inv b fuel bursts).just
+  rw [h] at hj
+  intro o ho
+  have := justifiedFrom_split [b.root] pre post t hj o ho
+  simpa [known] using this
+
+/-- (2) **the table only holds such objects**: it grows only by boxing results of performed operations, callback
+arguments of the service, or the root (`getroot`) -/
+theorem table_growth (b : Ctx) (fuel : Nat) (bursts : List (List Wire)) (s : Slot)
+    (hs : s ∈ (run b fuel {} bursts).table) : s.o ∈ known b.root (run b fuel {} bursts).log :=
+  (reachable_inv b fuel bursts).tbl s hs
+
+/-- (2) **LOCAL_REF resolves only through this connection's table**: in ANY state, an identifier that is not a key
+of the table (forged, stale, harvested from another connection) makes `_unbox` raise `KeyError` and changes nothing;
+an identifier that is a key yields exactly the object stored under it. -/
+theorem local_ref_only_table (c : Ctx) (st : St) (fut : List Wire) (f : Nat) (key : Val) :
+    (lookupSlot st.table key = none →
+      unbox (f + 1) (.tuple [.int Gen.Handlers.labelLocalRef, key]) c st fut = ⟨.error (Exc.ofErr .keyError), st, fut⟩) ∧
+    (∀ s, lookupSlot st.table key = some s →
+      unbox (f + 1) (.tuple [.int Gen.Handlers.labelLocalRef, key]) c st fut = ⟨.ok (.obj s.o), st, fut⟩) := by
+  have e1 : pyEqNat (.int Gen.Handlers.labelLocalRef) Gen.Handlers.labelValue = false := by
+    rw [pyEqNat_int]; decide
+  have e2 : pyEqNat (.int Gen.Handlers.labelLocalRef) Gen.Handlers.labelTuple = false := by
+    rw [pyEqNat_int]; decide
+  have e3 : pyEqNat (.int Gen.Handlers.labelLocalRef) Gen.Handlers.labelLocalRef = true := by
+    rw [pyEqNat_int]; decide
+  constructor
+  · intro h
+    simp [unbox, unpack2, iterVal, Handlers.liftE, Bind.bind, Pure.pure, e1, e2, e3, tableGet, h]
+  · intro s h
+    simp [unbox, unpack2, iterVal, Handlers.liftE, Bind.bind, Pure.pure, e1, e2, e3, tableGet, h]
+
+/-- **(5) outcome_total**, per request: whatever the payload, `_dispatch_request` logs the request, then balanced
+activity (the handler's touches; nested requests, each with its own answer), then EXACTLY ONE answer carrying this
+request's sequence value: a reply, an exception reply, or an abort record (the exception is re-raised in the
+serving thread — `KeyboardInterrupt` under the default configuration — or nothing can be written any more). -/
+theorem outcome_total_request (c : Ctx) (hA : AwaitOK c) (seq raw : Val) (st : St) (fut : List Wire)
+    (hI : Inv c.cfg c.root st) :
+    ∃ l e, (dispatchRequest seq raw c st fut).st.log = st.log ++ [.request seq] ++ l ++ [e] ∧ balL l = 0 ∧
+      e.answers seq :=
+  let ⟨_, l, e, h1, h2, _, h4⟩ := dispatchRequest_step c hA seq raw st fut hI
+  ⟨l, e, h1, h2, h4⟩
+
+/-- **(5) outcome_total**, per history: after any message sequence the number of requests dispatched equals the number
+of replies + exception replies + abort records; replies / exceptions from the peer and garbage never produce a frame
+with a request's answer (they are delivered, dropped, ignored, or end the connection) -/
+theorem outcome_total (b : Ctx) (fuel : Nat) (bursts : List (List Wire)) : balL (run b fuel {} bursts).log = 0 := by
+  obtain ⟨l, e, hb⟩ := (run_ok b fuel bursts {} (Inv.init _ _)).2.ext
+  have : ({} : St).log = [] := rfl
+  rw [e, this, List.nil_append]; exact hb
+
+/-- an exception that leaves `serve()` at the top level (an undecodable or malformed message, a hostile reply whose
+payload does not unbox, an abort) ends this one connection: `serve_all` records it and closes -/
+theorem top_level_error_ends (b : Ctx) (f : Nat) (st : St) (w : Wire) (rest : List Wire) (x : Exc) (st' : St)
+    (fut' : List Wire) (hI : Inv b.cfg b.root st) (hc : st.closed = false)
+    (h : dispatch w (b.tie f) st rest = ⟨.error x, st', fut'⟩) :
+    Ev.ended x.cls ∈ (serveBurst b (f + 1) st (w :: rest)).log := by
+  have hA : AwaitOK (b.tie f) := awaitF_ok b f
+  have h1 : Inv b.cfg b.root (dispatch w (b.tie f) st rest).st :=
+    (Sat.dispatch hA (need := []) w st rest hI (by intro o ho; cases ho)).1
+  rw [h] at h1
+  have hI2 := h1.pushNT (.ended x.cls) rfl (by intro t h; cases h)
+  obtain ⟨l, e, _⟩ := (closeConn_ok (b.tie f) hA _ hI2).2.ext
+  unfold serveBurst
+  simp only [hc, Bool.false_eq_true, if_false, h]
+  rw [e]
+  simp
+
+/-- **(6) closed_world**: the handler table of the source is exactly the one the model dispatches on -/
 theorem closed_world : Gen.Handlers.handlerTable = modelledHandlers := by decide
 
 /-- the parameter lists of the handlers are the ones the model binds arguments against -/
